@@ -40,7 +40,8 @@ def with_refs(r, text, truth):
     defs = []
     names = ["sA", "sB", "sC"]
     for nm in names[:r.randint(1, 3)]:
-        defs.append("@string{%s = %s}" % (nm, r.choice(['"Jan"', "{Some {Nested} text}", "12", '"a" # "b"', "{x, y = z}"])))
+        # incl. macros defined through another macro (bare reference), a chain the parser resolves one level deep
+        defs.append("@string{%s = %s}" % (nm, r.choice(['"Jan"', "{Some {Nested} text}", "12", '"a" # "b"', "{x, y = z}", "sA", "sB", "sC", "undefinedRef", "sA # sB"])))
     uses = []
     for i in range(r.randint(1, 3)):
         fs = ", ".join("f%d = %s" % (j, r.choice(names + ["undefinedRef", "sa", "{sA}", '"sB"', "sA # sB", "42"])) for j in range(r.randint(1, 3)))
@@ -60,7 +61,7 @@ def cases(tier, seed, shard, nshards):
     r = rng_for(seed, shard, "c05")
     n = tier_pick(tier, 48000, 2400000) // nshards
     for i in range(n):
-        opts = grammar.Opts(max_items=r.choice([1, 3, 6]), nest=r.choice([1, 3]))
+        opts = grammar.Opts(max_items=r.choice([1, 3, 6]), nest=r.choice([1, 3]), big=0.01)
         text, truth = grammar.document(r, opts)
         if i % 3 == 0:
             text = with_refs(r, text, truth)
